@@ -597,7 +597,85 @@ func main() {
 		}
 		return []srcKvs{{u.src, u.kvs}}
 	}
-	emit := func(g *caseGen, ups []update, stream string, nreps int) {
+	sortedKvs := func(m map[string]string) [][2]string {
+		keys := make([]string, 0, len(m))
+		for k := range m {
+			keys = append(keys, k)
+		}
+		sort.Strings(keys)
+		var out [][2]string
+		for _, k := range keys {
+			out = append(out, [2]string{k, m[k]})
+		}
+		return out
+	}
+	envNoise := []string{"PATH=/usr/bin", "NOEQUALS", "FELIXX_A=1", "felix=2", "HOME=/root", "CALICO_FELIX_X=1", "=", "FELIX_=lonely"}
+	emit := func(g *caseGen, ups0 []update, stream string, nreps int) {
+		// half of the UpdateFrom calls for the environment / config-file source get their map from the REAL loaders
+		// (LoadConfigFromEnvironment on a generated environ, LoadConfigFileData on generated ini text); the case then
+		// carries what the loader returned
+		ups := append([]update{}, ups0...)
+		var envsC []string
+		for i, u := range ups {
+			if u.isAll || u.isOver || len(u.kvs) == 0 || g.r.intn(2) == 0 {
+				continue
+			}
+			switch u.src {
+			case config.EnvironmentVariable:
+				var environ []string
+				ok := true
+				for _, kv := range u.kvs {
+					if strings.Contains(kv[0], "=") {
+						ok = false
+					}
+					pre := []string{"FELIX_", "felix_", "Felix_"}[g.r.intn(3)]
+					environ = append(environ, pre+kv[0]+"="+kv[1])
+					if g.r.intn(3) == 0 {
+						environ = append(environ, g.r.pick(envNoise))
+					}
+				}
+				if !ok {
+					continue
+				}
+				if g.r.intn(3) == 0 && len(u.kvs) > 0 {
+					// the same variable again in another spelling: the later one wins
+					environ = append(environ, "FELIX_"+strings.ToUpper(u.kvs[0][0])+"="+g.r.pick(genericRaw))
+				}
+				loaded := sortedKvs(config.LoadConfigFromEnvironment(environ))
+				ups[i].kvs = loaded
+				var es, ls []string
+				for _, e := range environ {
+					es = append(es, bs(e))
+				}
+				for _, kv := range loaded {
+					ls = append(ls, fmt.Sprintf("(%s, %s)", bs(kv[0]), bs(kv[1])))
+				}
+				envsC = append(envsC, fmt.Sprintf("([%s], [%s])", strings.Join(es, "; "), strings.Join(ls, "; ")))
+				g.tags["via-env-loader"] = true
+			case config.ConfigFile:
+				text := "[global]\n"
+				for _, kv := range u.kvs {
+					text += kv[0] + " = " + kv[1] + "\n"
+				}
+				m, err := config.LoadConfigFileData([]byte(text))
+				if err != nil {
+					g.tags["file-loader-error"] = true
+					continue
+				}
+				loaded := sortedKvs(m)
+				if fmt.Sprint(loaded) != fmt.Sprint(sortedKvs(func() map[string]string {
+					x := map[string]string{}
+					for _, kv := range u.kvs {
+						x[kv[0]] = kv[1]
+					}
+					return x
+				}())) {
+					g.tags["file-loader-altered-input"] = true
+				}
+				ups[i].kvs = loaded
+				g.tags["via-file-loader"] = true
+			}
+		}
 		obs := runMany(ups, g.watch, nreps)
 		// parse oracle: the real Parse on every (known parameter, raw) pair of the case
 		var ptab []string
@@ -786,8 +864,8 @@ func main() {
 		for _, w := range g.watch {
 			watchC = append(watchC, bs(w))
 		}
-		coq := fmt.Sprintf("mk_case %s %s [%s] [%s] [%s] [%s]", cb(fixed), cb(sorted), strings.Join(ptab, "; "),
-			strings.Join(upsC, "; "), strings.Join(watchC, "; "), strings.Join(obsC, "; "))
+		coq := fmt.Sprintf("mk_case %s %s [%s] [%s] [%s] [%s] [%s]", cb(fixed), cb(sorted), strings.Join(ptab, "; "),
+			strings.Join(upsC, "; "), strings.Join(watchC, "; "), strings.Join(obsC, "; "), strings.Join(envsC, "; "))
 		_ = enc.Encode(map[string]any{
 			"coq":    coq,
 			"nt":     shadowing || localDS || ambiguous,
